@@ -24,7 +24,9 @@ Taint labels
   F:<f>  may be (or contain) a reference to repository function f: targets of calls through values
   LOG    may be a logging/output primitive taken as a value; calling it is a sink of unknown level
   DYN    result of a dynamic attribute lookup: calling it may call anything (every function, and a sink)
-  P:<p> / PR:<p> / PC:<p>  (summary mode only) parameter p / its rendering / a record built from it
+  P:<p> / PR:<p> / PC:<p>  (summary mode only) parameter p / its rendering / a record built from it; an optional
+         path `|seg/seg..` selects a sub-tree of p by keys: `=lit` a literal key, `@q` the value of key parameter q,
+         resolved at every call site (Interp.index / Interp.select)
 
 See contracts/C20_NOTES.md for sources, sinks, declassifiers and assumptions.
 """
@@ -818,6 +820,7 @@ class Globals:
     def __init__(self):
         self.param, self.ret, self.attr, self.gvar, self.closure, self.default = {}, {}, {}, {}, {}, {}
         self.mut = {}           # (function, parameter) -> summary taint written into the argument object
+        self.secret_reads = set()   # (configuration key, function) where a secret configuration value is obtained
         self.holder = set()
         self.changed = False
         self.all_address_taken = False
@@ -922,7 +925,7 @@ class Interp:
             if not k.startswith(('P:', 'PR:', 'PC:')):
                 res = join(res, {k: org(f'returned by {g.fq}', o)})
                 continue
-            p = k.split(':', 1)[1]
+            p, _, path = k.split(':', 1)[1].partition('|')
             ts = []
             if implicit and g.params and p == g.params[0]:
                 if self.P.may_be_labelled(g.cls):
@@ -935,6 +938,8 @@ class Interp:
                 if p not in b or p in (g.vararg, g.kwarg):
                     ts.append(self.G.default.get((g.fq, p), EMPTY))
             for t in ts:
+                if path:
+                    t = self.select(t, path.split('/'), g, b)
                 if k.startswith('PR:'):
                     t = self.render(t)
                 elif k.startswith('PC:'):
@@ -942,6 +947,59 @@ class Interp:
                 if t:
                     res = join(res, {kk: org(f'through parameter `{p}` of {g.fq}', oo) for kk, oo in t.items()})
         return res
+
+    # ---- keyed access into mappings: literal keys select a sub-tree, also across calls ------------------------------
+    SAFE_KEY = re.compile(r'^[\w.\- ]+$')
+    MAX_PATH = 4
+
+    def key_segment(self, key_node):
+        """summary encoding of a key expression: '=<literal>' for a string literal, '@<param>' for a parameter of
+        this function that is never reassigned (resolved at every call site), None when the key is computed"""
+        if isinstance(key_node, ast.Constant) and isinstance(key_node.value, str) and \
+                self.SAFE_KEY.match(key_node.value):
+            return '=' + key_node.value
+        if isinstance(key_node, ast.Name) and self.F.kind != 'module' and key_node.id in self.F.all_params() \
+                and key_node.id not in self.W.assigned[self.F.fq] and key_node.id not in self.F.globals_decl:
+            return '@' + key_node.id
+        return None
+
+    def index(self, bt, key_node):
+        """taint of <value of taint bt>[key]: configuration data (R:) is narrowed to the sub-tree of a literal key
+        (r_access); a symbolic parameter (P:, summary mode) records the key as a path segment, which subst() resolves
+        at each call site; every other label is passed on unchanged"""
+        out = {k: o for k, o in bt.items() if not k.startswith(('R:', 'P:'))}
+        out = join(out, self.r_access(bt, key_node))
+        seg = None
+        for k, o in bt.items():
+            if k.startswith('P:'):
+                if seg is None:
+                    seg = self.key_segment(key_node) or ''
+                depth = k.count('/') + 1 if '|' in k else 0
+                if seg and depth < self.MAX_PATH:
+                    out[k + ('/' if '|' in k else '|') + seg] = o
+                else:
+                    out[k] = o          # computed key or deep path: "some sub-tree of the parameter"
+        return out
+
+    def select(self, t, segs, g, b):
+        """instantiate the path of a summary marker at a call site of g: every segment is a literal key or the
+        argument bound to a key parameter of g; a key that is not a string literal here selects any sub-tree"""
+        for seg in segs:
+            node = None
+            if seg.startswith('='):
+                node = ast.Constant(value=seg[1:])
+            else:
+                q = seg[1:]
+                xs = (b or {}).get(q)
+                if xs and len(xs) == 1 and xs[0] is not None:
+                    node = xs[0]
+                elif not xs and q in g.defaults and b is not None and q not in (g.vararg, g.kwarg):
+                    d = g.defaults[q]
+                    node = d if isinstance(d, ast.Constant) else None
+            if node is None:
+                node = ast.Name(id='<unknown key>', ctx=ast.Load())
+            t = self.index(t, node)
+        return t
 
     def leaks(self, t):
         return 'V' in self.render(t)
@@ -1364,7 +1422,15 @@ class Interp:
             f = f.parent
         imp = self.P.imports[self.F.module].get(n)
         if imp and imp[0] == 'from' and self.P.is_repo_module(imp[1]):
-            return self.P.modfuncs[imp[1]].get(imp[2])
+            g = self.P.modfuncs[imp[1]].get(imp[2])
+            if g is not None:
+                return g
+            c = self.P.modclasses[imp[1]].get(imp[2])
+        else:
+            c = self.P.modclasses[self.F.module].get(n)
+        if c is not None:
+            # a class taken as a value (`key_class(pem)`): calling it runs its constructor
+            return self.P.find_method(c, '__init__')
         return None
 
     def ev_NamedExpr(self, e):
@@ -1455,6 +1521,8 @@ class Interp:
                     self.G.holder.add(k[2:])
                     self.G.changed = True
             if key in SECRET_CONFIG_KEYS:
+                if self.mode != 'B':
+                    self.G.secret_reads.add((key, self.F.fq))
                 out.setdefault('V', org(f'configuration value [{key!r}] read in {self.F.fq}', o))
             else:
                 out.setdefault('R:' + key, org(f'[{key!r}]', o))
@@ -1463,18 +1531,16 @@ class Interp:
     def ev_Subscript(self, e):
         bt = self.ev(e.value)
         sl = e.slice
-        out = {k: o for k, o in bt.items() if not k.startswith('R:')}
         if isinstance(sl, ast.Slice):
             it = joinall([self.ev(sl.lower), self.ev(sl.upper), self.ev(sl.step)])
-            out = join(out, {k: o for k, o in bt.items() if k.startswith('R:')})
+            out = bt
         else:
             it = self.ev(sl)
-            out = join(out, self.r_access(bt, sl))
+            out = self.index(bt, sl)
             if 'V' in it and isinstance(e.ctx, ast.Load):
                 self.embed('KeyError', e, f'mapping/sequence key `{txt(sl)}`', it)
-        if 'V' in it:
-            out = join(out, {'V': it['V']})
-        return out
+        # looking something up by a secret key: the result is treated as secret (in summary mode: as secret as the key)
+        return join(out, {k: o for k, o in it.items() if k == 'V' or k.startswith('P')})
 
     def ev_Starred(self, e):
         return self.ev(e.value)
@@ -1669,6 +1735,8 @@ class Interp:
         fn = e.func
         base = libname.split('.')[-1]
         args = [a.value if isinstance(a, ast.Starred) else a for a in e.args]
+        if libname in TYPE_TESTS:
+            return EMPTY            # these built-ins neither call nor reveal their arguments
         cb = {}
         for a in args + [k.value for k in e.keywords]:
             for g in self.callback_targets(a):
@@ -1742,8 +1810,10 @@ class Interp:
             if m == 'pop' and args and 'V' in t_of(args[0]):
                 self.embed('KeyError', e, f'key of .pop() `{txt(args[0])}`', t_of(args[0]))
             onlyR = rt and all(k.startswith('R:') for k in rt)
-            if onlyR and m == 'get' and args:
-                return join(self.r_access(rt, args[0]), joinall(t_of(a) for a in args[1:]))
+            if m == 'get' and args and rt and all(k.startswith(('R:', 'P:')) for k in rt):
+                # mapping.get(key, default) on configuration data / on a symbolic parameter: keyed access
+                kt = {k: o for k, o in t_of(args[0]).items() if k == 'V' or k.startswith('P')}
+                return joinall([self.index(rt, args[0]), kt] + [t_of(a) for a in args[1:]])
             if onlyR and m == 'keys':
                 return EMPTY
             if m == 'format' or m == 'join' or m == 'format_map':
@@ -2148,9 +2218,14 @@ def analyse(root=None):
     sc = P.source_counts
     need = ['name:psk', 'name:sk_*', 'name:shared_secret', 'config-key:psk', 'api:exchange']
     missing = [k for k in need if not sc.get(k)]
+    reads = sorted(A.G.secret_reads)
+    if not any(k == 'psk' for k, _ in reads):
+        missing.append('flow: no read of configuration key psk from the parsed configuration file is recognised')
     items.append(('sources-seen', not missing,
                   ('vacuous: no occurrence of source kind(s) ' + ', '.join(missing) + '; ' if missing else '') +
-                  'occurrences of secret sources: ' + ', '.join(f'{k}={v}' for k, v in sorted(sc.items()))))
+                  'occurrences of secret sources: ' + ', '.join(f'{k}={v}' for k, v in sorted(sc.items())) +
+                  '; secret configuration values obtained (key, resolved in): ' +
+                  ', '.join(f'{k!r} in {f}' for k, f in reads)))
     vac = n_debug_tainted == 0
     items.append(('debug-emissions-recognised', not vac,
                   ('vacuous: the analysis sees no key material reaching any DEBUG-level log call' if vac else
